@@ -9,4 +9,5 @@ def cases(seed, tier):
     out += [case_conditional(PROPERTY, *s, tag="/pdiag") for s in pdiag_grid(seed, "C09", tier)]
     out += [case_conditional(PROPERTY, *s, tag="/upd") for s in upd_grid(seed, "C09", tier)]
     out += [case_conditional(PROPERTY, *s, tag=t) for s, t in ctor_grid(seed, "C09", tier)]
+    out += [case_conditional(PROPERTY, *s, tag="/hd") for s in hd_grid(seed, "C09", tier)]
     return seeded(out, seed)
